@@ -92,10 +92,12 @@ CHECKS = {
               "TLC checks Impl => Prop for every add-history (single and two-track, incl. tracks without samples) with and without "
               "trun optimisation and exports the histories; each is replayed through six API variants, both encoders and two segment "
               "shapes (extra emsg/prft/free/uuid/unknown boxes), decoded with an independently built init segment and read back both "
-              "by mp4ff (both decoders) and by the harness's independent ISO reader."),
+              "by mp4ff (both decoders) and by the harness's independent ISO reader. In the other direction FragmentRead.tla states the "
+              "tfhd / trex / trun defaulting rules of ISO 14496-12 8.8.7/8.8.8 and the running decode time; the raw box fields (own walk) and the samples the "
+              "library returns are recorded for every track fragment of the corpus files and of a share of the segments written in the run, and TLC validates each run."),
         note=("Trusted: TLC, Go replayer incl. its ISO reader. Sample field values come from 5 classes (equal/different dur, size, "
               "flags, cto incl. negative, zero size); at most 7 adds per fragment, 2 tracks, 2 fragments."),
-        technique="TLA+ history spec + TLC exhaustive enumeration, behaviour replay into real code with independent read-back",
+        technique="TLA+ history spec + TLC exhaustive enumeration, behaviour replay into real code with independent read-back, TLC trace validation of fragment reads",
         design_ref="DESIGN.md section 5 C05",
     ),
     "C19": dict(
